@@ -171,8 +171,8 @@ def date_roundtrip(P):
     return h
 
 
-@lemma({"days": int, "n": int}, params=lambda tier, seed: [[sg, k] for sg in ("+", "-") for k in ("small", "large")], tiers=("thorough",),
-       budget=300, thorough_budget=1500, per_path=40,
+@lemma({"days": int, "n": int}, params=lambda tier, seed: [[sg, k] for sg in ("+", "-") for k in (("small", "large") if tier == "thorough" else ("small",))],
+       budget=300, thorough_budget=600, per_path=40,
        bounds="every Duration with a whole number of seconds (|days| < 10 or 10**6 <= |days| < 2**30, any second of day; both signs) under "
               "the built-in round-trip pattern -D:hh:mm:ss.FFFFFFFFF: parse(format(d)) == d")
 def duration_roundtrip_seconds(P):
